@@ -354,6 +354,23 @@ def instances(rng, dtype=torch.float64, batch=(), n=3, psd=False, depth=1, class
                                                                             r @ r.mT + e.unsqueeze(-1) * eye(n), [s, t]))(c(r), c(e)), True)
         add("Root(Kronecker)", lambda c, a=G1 if n else None, b=G2: (lambda s, t: (RootLinearOperator(KroneckerProductLinearOperator(s, t)), kron(a, b) @ kron(a, b).mT, [s, t]))(c(a), c(b)))
         add("Sum3", lambda c, a=A, b=B, e=dn: (lambda s, t, u: (SumLinearOperator(DenseLinearOperator(s), DenseLinearOperator(t), DiagLinearOperator(u)), a + b + torch.diag_embed(e), [s, t, u]))(c(a), c(b), c(e)))
+        # ---- Block*/SumBatch built with every admissible block_dim (positive and negative, also non-adjacent):
+        # canonical data C has shape (*batch, k, n, n); the base handed to the constructor has the block dim at
+        # batch position p (explicit permutation, the other batch dims keep their order); dense is defined from C.
+        kb = 4
+        Cb = ri(rng, (*batch, kb, n, n), dtype=dtype)
+        nbat = len(batch)
+        for pos in range(nbat + 1):
+            order = list(range(pos)) + [nbat] + list(range(pos, nbat)) + [nbat + 1, nbat + 2]
+            Tb = Cb.permute(*order).contiguous()
+            for bd in (pos, pos - (nbat + 3)):
+                add(f"BlockDiag[block_dim={bd}]", lambda c, T=Tb, C=Cb, bd=bd: (lambda t: (BlockDiagLinearOperator(DenseLinearOperator(t), block_dim=bd), block_diag_dense(C), [t]))(c(T)))
+                add(f"BlockInterleaved[block_dim={bd}]", lambda c, T=Tb, C=Cb, bd=bd: (lambda t: (BlockInterleavedLinearOperator(DenseLinearOperator(t), block_dim=bd), block_interleaved_dense(C), [t]))(c(T)))
+                add(f"SumBatch[block_dim={bd}]", lambda c, T=Tb, C=Cb, bd=bd: (lambda t: (SumBatchLinearOperator(DenseLinearOperator(t), block_dim=bd), C.sum(-3), [t]))(c(T)))
+            # the same move reached through LinearOperator.sum(dim) on a structured (non-dense) operator
+            colT = ri(rng, (*Tb.shape[:-2], n), 0, 2, dtype)
+            add(f"Toeplitz.sum(dim={pos})", lambda c, a=colT, pos=pos: (lambda t: (ToeplitzLinearOperator(t).sum(pos), toeplitz_dense(a).sum(pos), [t]))(c(a)), tags=("fft",))
+            add(f"Toeplitz.sum(dim={pos - (nbat + 3)})", lambda c, a=colT, pos=pos: (lambda t: (ToeplitzLinearOperator(t).sum(pos - (nbat + 3)), toeplitz_dense(a).sum(pos), [t]))(c(a)), tags=("fft",))
         add("Mul(Root,Dense-root)", lambda c, a=R1, b=Bpsd: (lambda s, t: (MulLinearOperator(RootLinearOperator(s), DenseLinearOperator(t)), (a @ a.mT) * b, [s, t]))(c(a), c(b)), tags=("fft",))  # root of the dense factor via Cholesky: toleranced
     return out
 
